@@ -7,7 +7,6 @@ package shmipc
 import (
 	"bytes"
 	"fmt"
-	"os"
 	"strings"
 	"testing"
 	"time"
@@ -225,15 +224,12 @@ func genC20Sim(t *rapid.T) streamsCase {
 	for k := 0; k < npol; k++ {
 		st.S.CB = append(st.S.CB, cbPolicy{Take: rapid.SampledFrom([]int{0, 0, 1, 2, 7, 64}).Draw(t, "take")})
 	}
-	ends := []string{"open", "open", "ack-then-close", "server-closes-inside", "server-closer-thread"}
-	if os.Getenv("VERIF_PROBE_D8") != "" {
-		ends = []string{"peer-close-no-ack"} // maintenance: search for probes of known finding D8
-	}
+	ends := []string{"open", "open", "ack-then-close", "peer-close", "peer-close", "server-closes-inside", "server-closer-thread"}
 	switch rapid.SampledFrom(ends).Draw(t, "end") {
-	case "peer-close-no-ack":
-		st.C.Prog = append(st.C.Prog, sOp{K: "close"})
+	case "peer-close":
+		st.C.Prog = append(st.C.Prog, sOp{K: "close"}) // the peer closes right after its last flush
 	case "ack-then-close":
-		// the peer closes only after the callback side acknowledged everything (keeps known finding D8 out of the way)
+		// the peer closes only after the callback side acknowledged everything
 		st.S.AckAt = total
 		st.C.Prog = append(st.C.Prog, sOp{K: "readn", N: 1}, sOp{K: "close"})
 	case "server-closes-inside":
@@ -283,7 +279,7 @@ func judgeC20Sim(c streamsCase, h *streamsHist, r *runCtx) {
 		r.Label("closed-locally")
 	}
 	if ce.closeCalled {
-		r.Label("peer-closed-after-ack")
+		r.Label("peer-closed")
 	}
 	if se.onData > 1 {
 		r.Label("several-invocations")
